@@ -35,6 +35,7 @@ From TFL Require Import Proofs.LatticeSpecFacts Proofs.LatticeFinalize.
 From TFL Require Import Model.PWLProject Proofs.PWLProject.
 From TFL Require Import Model.LinearProject Proofs.PartialOrder Proofs.TopoSort Proofs.LinearProject.
 From TFL Require Import Model.PremadeKFL Proofs.PremadeKFL Proofs.PremadeRTL.
+From TFL Require Import Model.PremadeCheck Proofs.PremadeCheck.
 Open Scope Q_scope.
 
 (* ---------------------------------------------------------------------- *)
@@ -448,3 +449,71 @@ Example C03_rtl_hypotheses_satisfiable :
   rtl_wired exr_s exr_cals exr_ms /\ (forall m, In m exr_ms -> member2_ok m) /\
   MR.input_mono (MR.c_input exr_cfg) 1 = 1%nat.
 Proof. split. exact exr_structure. split. exact exr_wired. split. exact exr_members_ok. reflexivity. Qed.
+
+(* ---------------------------------------------------------------------- *)
+(* F. The wiring check the harness runs on EXTRACTED ensembles is sound       *)
+(*    (Model/PremadeCheck.v, Proofs/PremadeCheck.v)                           *)
+(* ---------------------------------------------------------------------- *)
+(* Vocabulary:
+     ens = mkEns members combiner output-calibrator features lo hi multi   what the harness extracts from
+                         the Keras graph of a built CalibratedLatticeEnsemble (per lattice dimension the
+                         index of the model feature it reads and the calibrator unit in between; weights)
+     ens_ok t d32 e      the boolean check, comparisons up to tolerance t (harness: float32 tolerance,
+                         d32 = true accepts the all-zero combiner of known finding D32); here t = 0, d32 = false
+     feat_at e i         configured monotonicity of model feature i
+     reader e i c        c is a calibrator unit through which some member reads feature i
+     (KFL members: kfl_layer_ok / term_ok decide kfl_feasible - term_ok_sound, kfl_layer_ok_feasible)
+     ens_eval e x        ensemble2_eval of the extracted structure *)
+(* check = true  ->  the hypotheses of C03_ensemble_monotone_mixed / C03_ensemble_bounded_mixed *)
+Theorem C03_wiring_check_sound : forall e, ens_ok 0 false e = true ->
+  comb_monotone (en_comb e) /\ out_monotone (en_oc e) /\
+  (forall m, In m (en_ms e) -> member2_ok m) /\
+  (forall m i xi v, In m (en_ms e) -> lattice_dim_mono (feat_at e i) = 1%Z ->
+     (forall c, reader e i c -> calib_eval c xi <= calib_eval c v) -> member2_monotone_in m i xi v) /\
+  (forall i c, reader e i c ->
+     (forall mo, feat_at e i = MNum mo -> mo <> 0%Z ->
+        exists kps lens col miss, c = CPwl kps lens col miss /\ Forall (fun l => 0 < l) lens /\
+          (mo = 1%Z -> outs_nondecr col) /\ (mo = (-1)%Z -> outs_nonincr col)) /\
+     (forall ps, feat_at e i = MPairs ps -> ps <> [] ->
+        exists vals d, c = CCat vals d /\
+          forall a b, In (a, b) ps -> (a < length vals)%nat /\ (b < length vals)%nat /\ nth a vals 0 <= nth b vals 0)) /\
+  (forall lo hi, en_lo e = Some lo -> en_hi e = Some hi -> out_range (en_oc e) lo hi) /\
+  (en_oc e = None -> forall lo hi, en_lo e = Some lo -> en_hi e = Some hi ->
+     comb_average_like (en_comb e) (length (en_ms e)) /\
+     forall m, In m (en_ms e) -> exists lo' hi', lo' == lo /\ hi' == hi /\ member2_in_bounds m lo' hi') /\
+  (en_multi e = false -> forall m, In m (en_ms e) -> nodupb (member2_idx m) = true).
+Proof. exact ens_ok_hypotheses. Qed.
+Print Assumptions C03_wiring_check_sound.
+
+(* ... and therefore, on the extracted structure, for ALL inputs: *)
+Theorem C03_checked_ensemble_increasing : forall e i x v,
+  ens_ok 0 false e = true -> (i < length x)%nat -> feat_at e i = MNum 1 ->
+  (forall c, reader e i c -> regular_input c (nth i x 0) /\ regular_input c v) -> nth i x 0 <= v ->
+  ens_eval e x <= ens_eval e (set_nth i v x).
+Proof. exact ens_ok_increasing. Qed.
+Print Assumptions C03_checked_ensemble_increasing.
+
+Theorem C03_checked_ensemble_decreasing : forall e i x v,
+  ens_ok 0 false e = true -> (i < length x)%nat -> feat_at e i = MNum (-1) ->
+  (forall c, reader e i c -> regular_input c (nth i x 0) /\ regular_input c v) -> nth i x 0 <= v ->
+  ens_eval e (set_nth i v x) <= ens_eval e x.
+Proof. exact ens_ok_decreasing. Qed.
+Print Assumptions C03_checked_ensemble_decreasing.
+
+Theorem C03_checked_ensemble_categorical : forall e i x ps a b,
+  ens_ok 0 false e = true -> (i < length x)%nat ->
+  feat_at e i = MPairs ps -> In (a, b) ps ->
+  (forall vals d, reader e i (CCat vals d) -> d <> Some (Z.of_nat a) /\ d <> Some (Z.of_nat b)) ->
+  ens_eval e (set_nth i (qn a) x) <= ens_eval e (set_nth i (qn b) x).
+Proof. exact ens_ok_categorical. Qed.
+Print Assumptions C03_checked_ensemble_categorical.
+
+Theorem C03_checked_ensemble_bounded : forall e lo hi x,
+  ens_ok 0 false e = true -> en_lo e = Some lo -> en_hi e = Some hi ->
+  lo <= ens_eval e x <= hi.
+Proof. exact ens_ok_bounded. Qed.
+Print Assumptions C03_checked_ensemble_bounded.
+
+(* Hypotheses are satisfiable: a lattice member and a KFL unit under a weighted average *)
+Example C03_wiring_check_satisfiable : ens_ok 0 false exc_ens = true.
+Proof. exact exc_passes. Qed.
